@@ -39,6 +39,7 @@ static void loadConfig(const json::Object &o) {
   if (auto v = o.getInteger("forkyLoop")) CFG.forkyLoop = (int)*v;
   if (auto v = o.getInteger("fmtForkMax")) CFG.fmtForkMax = *v;
   if (auto v = o.getString("reportRegion")) CFG.reportRegion = v->str();
+  if (auto a = o.getArray("traceRegions")) for (auto &x : *a) if (auto s = x.getAsString()) CFG.traceRegions.insert(s->str());
   if (auto v = o.getInteger("reportLimit")) CFG.reportLimit = *v;
   if (auto v = o.getString("wsetResetAfter")) CFG.wsetResetAfter = v->str();
   if (auto a = o.getArray("fields"))
@@ -97,6 +98,7 @@ static bool setupCell(const json::Object &cell, State &S, std::string &err) {
       Region &R = S.regions[id];
       rid[name] = id;
       if (name == CFG.reportRegion && CFG.reportLimit > 0) R.w().wlimit = CFG.reportLimit;
+      if (CFG.traceRegions.count(name)) R.traced = true;
       uint8_t prov = provByName(ro.getString("prov").getValueOr("other").str());
       RegionData &D = R.w();
       std::string head;
@@ -174,6 +176,17 @@ static std::string pathRecord(State &S, std::map<std::string, int> &setTable, st
   o += ",\"events\":[";
   for (size_t i = 0; i < S.events.size(); i++) { if (i) o += ","; o += S.events[i]; }
   o += "]";
+  if (!CFG.traceRegions.empty()) {
+    o += ",\"reads\":{"; bool f = true;
+    for (auto &kv : S.readBits) {
+      if (!f) o += ","; f = false;
+      o += jstr(S.regions[kv.first].name) + ":[";
+      bool f2 = true;
+      for (size_t i = 0; i < 1024;) { if (!kv.second[i]) { i++; continue; } size_t j = i; while (j < 1024 && kv.second[j]) j++; if (!f2) o += ","; f2 = false; o += "[" + std::to_string(i) + "," + std::to_string(j) + "]"; i = j; }
+      o += "]";
+    }
+    o += "}";
+  }
   if (!CFG.reportRegion.empty())
     for (auto &R : S.regions) if (R.name == CFG.reportRegion) {
       { int64_t ml = -1; int64_t mh = R.rd().nulAfter(0, &ml); o += ",\"nul\":[" + std::to_string(ml) + "," + std::to_string(mh) + "]"; }
